@@ -3,6 +3,7 @@ package eval
 import (
 	"bytes"
 	"math"
+	"slices"
 	"strings"
 
 	"fortio.org/log"
@@ -79,7 +80,9 @@ func (s *State) evalIndexAssigment(which ast.Node, index, value object.Object) o
 		if idx < 0 || idx >= int64(object.Len(val)) {
 			return s.NewError("index assignment out of bounds: " + index.Inspect())
 		}
-		elements := object.Elements(val)
+		// Arrays are values: work on a copy (large arrays share their element slice with whoever they were
+		// assigned or passed to).
+		elements := slices.Clone(object.Elements(val))
 		elements[idx] = value
 		oerr := s.env.Set(id.Literal(), object.NewArray(elements))
 		if oerr.Type() == object.ERROR {
@@ -88,7 +91,7 @@ func (s *State) evalIndexAssigment(which ast.Node, index, value object.Object) o
 		return value
 	case object.MAP:
 		m := val.(object.Map)
-		m = m.Set(index, value)
+		m = cloneMap(m).Set(index, value)
 		oerr := s.env.Set(id.Literal(), m)
 		if oerr.Type() == object.ERROR {
 			return oerr
@@ -98,6 +101,12 @@ func (s *State) evalIndexAssigment(which ast.Node, index, value object.Object) o
 		return s.Errorf("index assignment to %s of unexpected type %s",
 			id.Literal(), val.Type().String())
 	}
+}
+
+// Maps are values: large maps are modified in place by Set/Delete and shared by whoever they were assigned
+// or passed to, so modify a copy.
+func cloneMap(m object.Map) object.Map {
+	return m.Append(object.NewMap())
 }
 
 func argCheck[T any](s *State, msg string, n int, vararg bool, args []T) *object.Error {
@@ -475,7 +484,7 @@ func (s *State) deleteMapEntry(idxE *ast.IndexExpression, index object.Object) o
 	}
 	log.LogVf("remove map: %s from %s", index.Inspect(), id)
 	m := obj.(object.Map)
-	m, changed := m.Delete(index)
+	m, changed := cloneMap(m).Delete(index)
 	if !changed {
 		return object.FALSE
 	}
@@ -1284,12 +1293,16 @@ func (s *State) evalArrayInfixExpression(operator token.Type, left, right object
 		}
 		return object.NewArray(result)
 	case token.PLUS: // concat / append
+		// always build a new slice: appending in place would write into spare capacity shared with other arrays.
 		if right.Type() != object.ARRAY {
-			return object.NewArray(append(leftVal, object.Value(right)))
+			result := object.MakeObjectSlice(len(leftVal) + 1)
+			result = append(result, leftVal...)
+			return object.NewArray(append(result, object.Value(right)))
 		}
 		rightArr := object.Elements(right)
-		object.MustBeOk(len(leftVal) + len(rightArr))
-		return object.NewArray(append(leftVal, rightArr...))
+		result := object.MakeObjectSlice(len(leftVal) + len(rightArr))
+		result = append(result, leftVal...)
+		return object.NewArray(append(result, rightArr...))
 	default:
 		return s.Errorf("unknown operator: %s %s %s",
 			left.Type(), operator, right.Type())
